@@ -61,6 +61,20 @@ class MMS:
         self.Uw = [float(rng.uniform(0.5, 1.5)) * math.pi / L[k] for k in range(nd)]
         self.b0 = float(rng.uniform(0.2, 1.5))
         self.tw = float(rng.uniform(0.5, 1.5))
+        self.frozen = set()         # axes along which nothing varies (strip problems: one cell across)
+
+    def freeze(self, k):
+        """no dependence on coordinate k: solution, D, u, beta (the velocity component u_k itself stays, uniform along k)"""
+        self.frozen.add(k)
+        self.a[k] = 0.0
+        self.Dc[k] = 0.0
+
+    def make_periodic(self, k):
+        """everything periodic along coordinate k with the period of the axis extent"""
+        L = self.ext[k][1] - self.ext[k][0]
+        self.w[k] = 2 * math.pi * float(max(1, round(self.w[k] * L / (2 * math.pi)))) / L
+        self.Dw[k] = 2 * math.pi / L
+        self.Uw[k] = 2 * math.pi / L
 
     def f(self, k, s):
         return 1 + self.a[k] * np.sin(self.w[k] * s + self.d[k])
@@ -96,12 +110,16 @@ class MMS:
     def u(self, k, q):
         out = self.U[k]
         for j in range(self.nd):
+            if j in self.frozen:
+                continue
             out = out * (1 + 0.3 * np.sin(self.Uw[j] * q[j] + 0.7 * (k + 1)))
         return out
 
     def beta(self, q):
         out = self.b0
         for k in range(self.nd):
+            if k in self.frozen:
+                continue
             out = out * (1 + 0.3 * np.cos(self.Dw[k] * q[k] + 1.0))
         return out
 
@@ -173,7 +191,7 @@ def faces_for(ext, n, kappa):
     return out
 
 
-def solve_once(cls, mms, ext, n, kappa, bckinds, tset, tmode, lam, lunit=1.0, order='diff-first'):
+def solve_once(cls, mms, ext, n, kappa, bckinds, tset, tmode, lam, lunit=1.0, order='diff-first', periodic=()):
     """lunit: the same problem expressed in another length unit (faces of length-like axes, D, u, boundary a rescaled by their
     dimension; the oracle stays in the original unit). order: which matrix terms are built first on the shared mesh."""
     faces = faces_for(ext, n, kappa)
@@ -185,8 +203,13 @@ def solve_once(cls, mms, ext, n, kappa, bckinds, tset, tmode, lam, lunit=1.0, or
     qc = [_bc(g.c[k], k, nd) for k in range(nd)]
     BC = pf.BoundaryConditions(m)
 
+    for k in periodic:
+        getattr(BC, SIDES[k][int(n[k]) % 2]).periodic = True          # declared by one flag (either one)
+
     def bc_at(t):
         for k in range(nd):
+            if k in periodic:
+                continue
             for j, side in enumerate(SIDES[k]):
                 q = list(qc)
                 q[k] = np.full([1] * nd, g.faces[k][0] if j == 0 else g.faces[k][-1])
@@ -297,9 +320,21 @@ def run_case(case):
     # a steady problem with only Neumann sides and no sink is singular: guarantee one Dirichlet-like side
     if all(v[0] == 'N' for v in bckinds.values()) and 'src' not in tset and tmode == 'steady':
         bckinds[SIDES[0][1]] = ('D', 0.0, 1.0)
+    strip = case.get('strip')          # axis with ONE cell across (the problem does not vary along it; through-flow along it allowed)
+    per_axes = tuple(case.get('periodic') or ())
+    if strip is not None:
+        mms.freeze(strip)
+    for k in per_axes:
+        if AXKIND[cls][k] == 'ang':
+            ext[k] = (0.0, 2 * math.pi)
+        mms.ext = ext
+        mms.make_periodic(k)
     errs = []
     for mult in (1, 2, 4):
-        r = solve_once(cls, mms, ext, [n0 * mult] * nd, kappa, bckinds, tset, tmode, lam, lunit=float(case.get('lunit') or 1.0), order=case.get('order', 'diff-first'))
+        nn = [n0 * mult] * nd
+        if strip is not None:
+            nn[strip] = 1
+        r = solve_once(cls, mms, ext, nn, kappa, bckinds, tset, tmode, lam, lunit=float(case.get('lunit') or 1.0), order=case.get('order', 'diff-first'), periodic=per_axes)
         if r is None:
             return {'verdict': 'inconclusive', 'key': 'singular', 'msg': 'non-finite solution', 'nontrivial': False, 'cov': {}}
         errs.append(r)
@@ -310,9 +345,9 @@ def run_case(case):
     # theory (pre-asymptotic cancellation); only the total reduction over two refinements is required there
     need_order, need_red = (None, 2.5) if first_order else (1.4, 5.0)
     bcv = ''.join(case['bc'][:2 * nd])
-    key = '%s/%s/%s/%s/%s/%s/%s/%s/%s' % (cls, spacing, bcv, tset, tmode, case.get('usign'), case.get('pe'), case.get('lunit'), case.get('order'))
+    key = '%s/%s/%s/%s/%s/%s/%s/%s/%s/%s/%s' % (cls, spacing, bcv, tset, tmode, case.get('usign'), case.get('pe'), case.get('lunit'), case.get('order'), strip, per_axes)
     cov = {'cases:%s' % cls: 1, 'tset:%s' % tset: 1, 'tmode:%s' % tmode: 1, 'spacing:%s' % spacing: 1, 'solves': 3,
-           'order:%s' % case.get('order', 'diff-first'): 1, 'length_unit:%s' % ('1' if not case.get('lunit') else ('small' if case['lunit'] < 1 else 'large')): 1}
+           'order:%s' % case.get('order', 'diff-first'): 1, 'strip:%s' % ('yes' if strip is not None else 'no'): 1, 'periodic:%s' % ('yes' if per_axes else 'no'): 1, 'length_unit:%s' % ('1' if not case.get('lunit') else ('small' if case['lunit'] < 1 else 'large')): 1}
     for ch in set(bcv):
         cov['bc:' + ch] = 1
     sample = {'cls': cls, 'spacing': spacing, 'bc': bcv, 'terms': tset, 'time': tmode, 'n': [n0, 2 * n0, 4 * n0], 'err_inf': einf, 'err_l2': el2}
@@ -324,7 +359,12 @@ def run_case(case):
     maxerr = {'order_deficit': max(0.0, (need_order or 0.0) - min(p_inf, p_l2))}
     bad = []
     if need_order is not None:
-        if 'upwind' in tset:
+        if per_axes and spacing == 'graded':
+            # unequal cells on the two sides of a periodic seam: the periodic rows are first-order accurate there (same root cause
+            # as the C03 finding), observed L_inf orders 0.84-1.6 and L2 orders 1.64-2.1 on the unchanged tree; the L2 order decides
+            ok_order = p_l2 >= 1.3 and p_inf >= 0.6
+            ok_red = el2[2] <= el2[0] / 4.0
+        elif 'upwind' in tset:
             # upwind sets are second-order tests against the MODIFIED equation (numerical diffusion |u|*delta/2 in the oracle);
             # on the coarse 3-D grids the L_inf order is depressed by the outflow-boundary faces, so the L2 order decides
             # (>= 1.35; observed minimum on the correct tree 1.57) and the L_inf order must be >= 0.9
@@ -399,6 +439,26 @@ def plan(tier, seed):
             cases.append({'cls': cls, 'spacing': spacing, 'bc': list(bc), 'tset': tset, 'tmode': tmode, 'n0': n0, 'usign': usign, 'pe': pe, 'seed': [seed, 2, ci, i],
                           'lunit': lunit, 'order': 'adv-first' if i % 2 else 'diff-first'})
             i += 1
+    # strips (one cell across, both orientations, flow along the strip and across it) and periodic axes (full circle / periodic box)
+    for ci, cls in enumerate(CLASSES):
+        nd = NDIM[cls]
+        if nd == 1:
+            continue
+        reps = 1 if tier == 'quick' else 4
+        for rep in range(reps):
+            for t in range(nd):
+                if AXKIND[cls][t] in ('rad', 'pol'):      # metric factors depend on r and theta: one thick cell along them is no convergence test
+                    continue
+                for tset in (('D+upwind', 'D+central') if tier != 'quick' else ('D+upwind',)):
+                    cases.append({'cls': cls, 'spacing': 'graded', 'bc': list('DRNDRN'), 'tset': tset, 'tmode': 'steady', 'n0': 8 if nd == 2 else 5, 'usign': [1, 1, 1] if rep % 2 == 0 else [-1, 1, -1],
+                                  'pe': 'moderate', 'seed': [seed, 2, ci, 5000 + i], 'strip': t, 'order': 'diff-first'})
+                    i += 1
+            per_cand = [k for k in range(nd) if AXKIND[cls][k] in ('ang', 'len')]
+            for k in per_cand[:2] if tier == 'quick' else per_cand:
+                for spacing in ('uniform', 'graded'):
+                    cases.append({'cls': cls, 'spacing': spacing, 'bc': list('DRDRDR'), 'tset': 'D+central' if rep % 2 else 'D', 'tmode': 'steady', 'n0': None if nd == 2 else 5,
+                                  'usign': None, 'pe': 'moderate', 'seed': [seed, 2, ci, 6000 + i], 'periodic': [k], 'order': 'diff-first'})
+                    i += 1
     # one case per chunk for the 3-D classes (cost), a few per chunk otherwise
     chunks = []
     small = [c for c in cases if NDIM[c['cls']] < 3]
@@ -415,7 +475,7 @@ def floors(agg, tier):
     for cls in CLASSES:
         if agg['cov'].get('cases:' + cls, 0) < 4:
             out.append('cases:%s < 4' % cls)
-    for k in ('length_unit:small', 'length_unit:large', 'order:adv-first', 'order:diff-first', 'bc:D', 'bc:N', 'bc:R', 'spacing:uniform', 'spacing:graded', 'tset:D', 'tset:D+central', 'tset:D+src', 'tmode:steady'):
+    for k in ('strip:yes', 'periodic:yes', 'length_unit:small', 'length_unit:large', 'order:adv-first', 'order:diff-first', 'bc:D', 'bc:N', 'bc:R', 'spacing:uniform', 'spacing:graded', 'tset:D', 'tset:D+central', 'tset:D+src', 'tmode:steady'):
         if agg['cov'].get(k, 0) < 3:
             out.append('%s < 3' % k)
     if agg['cov'].get('tmode:dt~h2', 0) + agg['cov'].get('tmode:dt~h', 0) < 3:
